@@ -184,6 +184,13 @@ P("upd_attempts", 5);
     mconn = re.search(r"supla_esp_devconn_connect_cb\(void \*arg\) \{([^}]*)\}", re.sub(r"\s+", " ", dv))
     if not mconn or "supla_esp_srpc_init();" not in mconn.group(1):
         raise ExtractError("supla_esp_devconn_connect_cb: body not recognised")
+    # the form handler commits the candidate record to RAM only inside the success branch of the save
+    fm = re.sub(r"\s+", " ", open(os.path.join(C.REPO, "src/user/supla_esp_cfgmode.c")).read())
+    ncopy = len(re.findall(r"memcpy\(&supla_esp_cfg, &new_cfg, sizeof\(SuplaEspCfg\)\);", fm))
+    if ncopy != 1:
+        raise ExtractError("supla_esp_recv_callback: expected exactly one copy of new_cfg into supla_esp_cfg, found %d" % ncopy)
+    a["form_commit_guarded"] = "true" if re.search(
+        r"if \(1 == supla_esp_cfg_save\(&new_cfg\)\) \{ memcpy\(&supla_esp_cfg, &new_cfg, sizeof\(SuplaEspCfg\)\);", fm) else "false"
     a["dc_connect_resets"] = "true" if re.search(r"devconn->registered = 0;.*supla_esp_srpc_init\(\);", mconn.group(1)) else "false"
     a.update(u)
     a.update(h)
@@ -266,6 +273,8 @@ def emit_consts():
             k["cfg_off_guid"], k["cfg_off_auth"], k["cfg_off_server"], k["cfg_guid"], k["cfg_guid"], k["cfg_auth"]),
         "/-- supla_esp_devconn_connect_cb resets devconn->registered before creating the protocol instance -/",
         "def dcConnectResets : Bool := %s" % k["dc_connect_resets"],
+        "/-- supla_esp_recv_callback copies the submitted record over supla_esp_cfg only when supla_esp_cfg_save returned 1 -/",
+        "def formCommitGuarded : Bool := %s" % k["form_commit_guarded"],
         "def updParams : UpdParams :=",
         "  { sec := %s, rsa := %s, lim512 := %s, lim1024 := %s, hi512 := %s, lo512 := %s, hi1024 := %s, lo1024 := %s," % (
             k["upd_sec"], k["upd_rsa"], k["upd_l512"], k["upd_l1024"], k["upd_a512_hi"], k["upd_a512_lo"],
